@@ -486,6 +486,100 @@ func runC18(c *engine.Ctx) {
 
 	checkFlagTargets(c, "R9")
 	checkStrictPlumbing(c, "R10")
+
+	// ---- R11 the strict switch stays locked for the whole load ----
+	c.Rule("R11", "the function that sets v1.DisallowUnknownFields locks DisallowUnknownFieldsMu and releases it only by a deferred Unlock: the nested decoders read the switch during the whole decode, an overlapping load with the other mode must wait")
+	n11 := 0
+	isMu := func(v ssa.Value) bool {
+		g, ok := engine.Unwrap(v).(*ssa.Global)
+		return ok && g.Name() == "DisallowUnknownFieldsMu"
+	}
+	for _, f := range p.RepoFuncs() {
+		setsSwitch := false
+		engine.ForEachInstr(f, func(in ssa.Instruction) {
+			if st, ok := in.(*ssa.Store); ok {
+				if g, ok := st.Addr.(*ssa.Global); ok && g.Name() == "DisallowUnknownFields" {
+					setsSwitch = true
+				}
+			}
+		})
+		if !setsSwitch || f.Name() == "init" {
+			continue
+		}
+		n11++
+		locks, deferredUnlock, directUnlock := 0, 0, 0
+		engine.ForEachInstr(f, func(in ssa.Instruction) {
+			call, ok := in.(ssa.CallInstruction)
+			if !ok {
+				return
+			}
+			o := engine.CalleeObj(call)
+			if o == nil || o.Pkg() == nil || o.Pkg().Path() != "sync" || len(call.Common().Args) == 0 || !isMu(call.Common().Args[0]) {
+				return
+			}
+			_, isDefer := in.(*ssa.Defer)
+			switch {
+			case o.Name() == "Lock":
+				locks++
+			case o.Name() == "Unlock" && isDefer:
+				deferredUnlock++
+			case o.Name() == "Unlock":
+				directUnlock++
+			}
+		})
+		c.Check(locks >= 1 && deferredUnlock >= 1 && directUnlock == 0, p.FuncName(f)+">switch-locked-for-the-load", f.Pos(), 3, nil,
+			"Lock, deferred Unlock, no early Unlock (locks=%d deferred=%d direct=%d)", locks, deferredUnlock, directUnlock)
+	}
+	c.Floor(n11, 1)
+
+	// ---- R12 environment values are taken whole ----
+	c.Rule("R12", "the template environment is built by cutting each os.Environ entry at its first '=' only (SplitN(…, 2) or strings.Cut): a value that itself contains '=' must render, not vanish")
+	n12 := 0
+	for _, f := range p.RepoFuncs() {
+		if f.Pkg == nil || !strings.HasSuffix(f.Pkg.Pkg.Path(), "/pkg/config") {
+			continue
+		}
+		hasEnviron := false
+		engine.ForEachInstr(f, func(in ssa.Instruction) {
+			if call, ok := in.(ssa.CallInstruction); ok {
+				if o := engine.CalleeObj(call); o != nil && o.Pkg() != nil && o.Pkg().Path() == "os" && o.Name() == "Environ" {
+					hasEnviron = true
+				}
+			}
+		})
+		if !hasEnviron {
+			continue
+		}
+		engine.ForEachInstr(f, func(in ssa.Instruction) {
+			call, ok := in.(ssa.CallInstruction)
+			if !ok {
+				return
+			}
+			o := engine.CalleeObj(call)
+			if o == nil || o.Pkg() == nil || o.Pkg().Path() != "strings" {
+				return
+			}
+			args := call.Common().Args
+			if len(args) < 2 {
+				return
+			}
+			if sep, ok := engine.ConstString(args[1]); !ok || sep != "=" {
+				return
+			}
+			n12++
+			okSplit := false
+			switch o.Name() {
+			case "SplitN":
+				if k, ok := engine.ConstInt(args[2]); ok && k == 2 {
+					okSplit = true
+				}
+			case "Cut":
+				okSplit = true
+			}
+			c.Check(okSplit, p.FuncName(f)+">env-split", in.Pos(), 1, nil, "environment entries are cut at the first '=' (%s)", o.Name())
+		})
+	}
+	c.Floor(n12, 1)
 }
 
 // checkFlagTargets (R9): "the same configuration given through command-line flags yields identical structures". Every
